@@ -265,7 +265,7 @@ def run(ctx):
         rs = [fmt(x) for x in r]
         if re.fullmatch(r"(const )?\w+ &", t):
             ps = pieces(r[0]) if len(r) == 1 else None
-            ok = ps is not None and len(ps) == 2 and "enumerate_proxy" in ctor_name(r[0]) and bound_of(ps[0], "begin", lambda o: is_param(f, o)) is not None and bound_of(ps[1], "end", lambda o: is_param(f, o)) is not None
+            ok = ps is not None and len(ps) == 2 and ("enumerate_proxy" in ctor_name(r[0]) or re.fullmatch(r"\w+", ctor_name(r[0]) or "") is not None) and bound_of(ps[0], "begin", lambda o: is_param(f, o)) is not None and bound_of(ps[1], "end", lambda o: is_param(f, o)) is not None
             ctx.check(bool(ok), "R20.1", f, "lvalue-proxy-over-begin-end:" + ("const T &" if t.startswith("const") else "T &"), "enumerate(%s) returns %s (expected a proxy over [begin(x), end(x)) of the argument itself)" % (t, rs), f)
         elif re.fullmatch(r"\w+ &&", t):
             ps = pieces(r[0]) if len(r) == 1 else None
@@ -284,7 +284,7 @@ def run(ctx):
         rs = [fmt(x) for x in r]
         if re.fullmatch(r"(const )?\w+ &", t):
             ps = pieces(r[0]) if len(r) == 1 else None
-            ok = ps is not None and len(ps) == 2 and "reverse_proxy" in ctor_name(r[0]) and bound_of(ps[0], "begin", lambda o: is_param(f, o), ("r",)) == "r" and bound_of(ps[1], "end", lambda o: is_param(f, o), ("r",)) == "r"
+            ok = ps is not None and len(ps) == 2 and ("reverse_proxy" in ctor_name(r[0]) or re.fullmatch(r"\w+", ctor_name(r[0]) or "") is not None) and bound_of(ps[0], "begin", lambda o: is_param(f, o), ("r",)) == "r" and bound_of(ps[1], "end", lambda o: is_param(f, o), ("r",)) == "r"
             ctx.check(bool(ok), "R20.2", f, "lvalue-proxy-over-rbegin-rend:" + ("const T &" if t.startswith("const") else "T &"), "reverse(%s) returns %s (expected a proxy over [x.rbegin(), x.rend()) of the argument itself)" % (t, rs), f)
         elif re.fullmatch(r"\w+ &&", t):
             ps = pieces(r[0]) if len(r) == 1 else None
@@ -362,7 +362,7 @@ def run(ctx):
         ctx.ok("R20.4", "nitro::lang", "no-shared-storage", "%d functions scanned" % len(pats), "-")
     # ---- R20.5: the library's own container hands the adaptors correct range bounds
     ctx.rule("R20.5", "fixed_vector's (c)(r)begin/(c)(r)end delimit exactly its elements (R06.9 re-evaluated): enumerate/reverse over it visit each element once")
-    if ctx.prop == "C20":
+    if ctx.prop == "C20" and not getattr(ctx, "_sharing", False):
         from .common import share
         share(ctx, "C06", ("R06.9",), "R20.5", "iterator accessor obligations shared with C06", 12)
     ctx.assume("iteration over user-defined iterators with exotic operator!= is outside the claim")
